@@ -9,7 +9,8 @@ ROOT=/tmp/mt/$N
 rm -rf "$ROOT"; mkdir -p "$ROOT"
 git -C /repo worktree add --detach "$ROOT/repo" HEAD -q || exit 2
 ( cd "$ROOT/repo" && git apply "$D/patch.diff" ) || { echo "patch does not apply"; git -C /repo worktree remove --force "$ROOT/repo"; exit 2; }
-rsync -a --exclude harness/target --exclude .git --exclude evidence --exclude seeded /verif/ "$ROOT/verif/"
+# committed state only (like `vp run`): work in progress in /verif must not leak into an evaluation
+mkdir -p "$ROOT/verif" && git -C /verif archive HEAD | tar -x -C "$ROOT/verif" && rm -rf "$ROOT/verif/seeded"
 mkdir -p "$ROOT/verif/evidence"
 sed -i "s|path = \"/repo\"|path = \"$ROOT/repo\"|" "$ROOT/verif/harness/Cargo.toml"
 PROPS="$@"; [ -n "$PROPS" ] || PROPS=$(python3 -c "import json;print(' '.join(c['property_id'] for c in json.load(open('/verif/MANIFEST.json'))['checks']))")
